@@ -21,7 +21,8 @@ ASSUMPTIONS = [
     "event-wise functions for batch_call / LazyCall in the correspondence are the 4 functions testF 0..3; the theorems quantify over every f commuting with row windows",
     "np.savetxt/np.loadtxt/np.save/np.load reproduce float64 values exactly (checked on integer-valued data)",
     "LazyCall batches are consumed by iteration (for ... in L, as batch_call does); list(L) additionally calls LazyCall.__len__ = data_shape(eval of x), which raises for an x without arrays (not part of the model)",
-    "LazyCall: the plain and the nested (x is a LazyCall) branches of __iter__ are modelled (fixed code: _split_extra); HeavyCall/tf.data caching and LazyFile are exercised by the search only (tf.data is a parameter)",
+    "LazyCall: the plain and the nested (x is a LazyCall) branches of __iter__ are modelled (fixed code: _split_extra); the HeavyCall branch ({**i, **j} over cached_batch[batch_size], populated by as_dataset) is compared with the same model lazyIterF on dict-only data (correspondence) and with the eager value {**f(x), **extra} by the search (plain iteration, data_split+data_merge, batch_call, eval; alone, via data_replace, inside and around plain LazyCalls; extras colliding with output keys and not)",
+    "outside the model (parameters, only exercised): tf.data itself (Dataset.from_tensor_slices(...).batch(b).map(f) is taken to yield f on the row windows, prefetch/AUTOTUNE order-preserving), tf.function tracing of the heavy function, the on-disk cache (set_cached_file / Dataset.cache(file)), LazyFile (from_generator, mmap), LazyCall.merge of HeavyCall objects, lists inside x of a HeavyCall (from_tensor_slices turns a list into one tensor)",
     "the theorems named without suffix F describe the generator before fix 15c726c (kept: they state exactly what the MAX_ITER branch lost); the suffix-F theorems describe the code now in /repo; the harness observes the variant and compares with the matching model",
 ]
 
@@ -67,6 +68,19 @@ def gen_tree(rnd, n, depth=3, p_empty=0.15, nonuniform=0.0, top=True, want_leaf=
     if kind == "S":
         return list(kids)
     return tuple(kids)
+
+
+def gen_dict_tree(rnd, n, depth=2):
+    """dict-only tree of float arrays with n rows (a structure tf.data.Dataset.from_tensor_slices keeps as it is)"""
+    np = _np()
+    out = {}
+    for k in rnd.sample(KEYS, rnd.randint(1, 3)):
+        if depth > 0 and rnd.random() < 0.35:
+            out[k] = gen_dict_tree(rnd, n, depth - 1)
+        else:
+            sh = rnd.choice(SHAPES)
+            out[k] = np.array([rnd.randint(-30, 30) for _ in range(n * int(np.prod(sh, dtype=int)))], dtype=float).reshape((n,) + sh)
+    return out
 
 
 def has_leaf(t):
@@ -442,6 +456,18 @@ def correspond(ctx, res):
         lazy_case(D, {"x": np.arange(float(n))}, {}, 3, 1, LV, add)
         lazy_case(D, {"x": np.arange(float(n))}, {"weight": np.arange(n), "o": {}}, 3, 1, LV, add)
 
+    # --- HeavyCall function: first branch of __iter__ ({**i, **j} over the cached tf.data pipeline); the model is the
+    #     same lazyIter (tf.data batching of an event-wise map = the row windows), dict-only uniform x, colliding extras
+    for hi in range(10 * min(scale, 8)):
+        n = rnd.choice([1, 2, 3, 7])
+        x = gen_dict_tree(rnd, n)
+        extra = {}
+        if rnd.random() < 0.7:
+            extra["y"] = gen_dict_tree(rnd, n) if rnd.random() < 0.5 else np.array([rnd.randint(-9, 9) for _ in range(n)], dtype=float)
+        if rnd.random() < 0.5:
+            extra["weight"] = np.array([rnd.randint(-9, 9) for _ in range(n)], dtype=float)
+        lazy_case(D, x, extra, 3, [1, 2, n + 5, max(1, n - 1)][hi % 4], LV, add, heavy=True)
+
     # --- nested LazyCall(g, LazyCall(f, x)) (second branch of __iter__; modelled for the fixed code) -----------
     if LV == 1:
         for _ in range(40 * scale):
@@ -499,8 +525,8 @@ def canon_ans(s):
     return s
 
 
-def lazy_case(D, x, extra, fid, b, LV, add):
-    f = test_f(fid)
+def lazy_case(D, x, extra, fid, b, LV, add, heavy=False):
+    f = D.HeavyCall(test_f(fid)) if heavy else test_f(fid)
 
     def mk():
         L = D.LazyCall(f, x)
@@ -956,26 +982,162 @@ def search_lazy(ctx, res, rnd, D, stats, hard, mult):
             res.fail(key, "merged batches of LazyCall (batch %d, %d events, extra keys %s) differ from eval(): leaf sizes %s" % (b, n, sorted(extra), szs), payload)
         elif not tree_equal(it2, {"z": tree_map(want, lambda q: q + 1)}):
             res.fail(K_LAZY if nb > 1000 else "LazyCall:nested", "LazyCall(g, LazyCall(f, x)) batches differ from g(f(x)) (outer extra empty, %d batches)" % nb, payload)
-    # HeavyCall path (tf.data batching) on a small case
-    for _ in range(6 if hard else 2):
-        n = rnd.choice([3, 7, 16])
-        x = {"x": np.array([rnd.randint(-9, 9) for _ in range(n * 2)], dtype=float).reshape(n, 2), "k": {"q": np.arange(float(n))}}
-        extra = {"weight": np.arange(float(n))}
-        b = pick_b(rnd, n)
-        g = lambda d: {"y": d["x"] * 2.0, "k": d["k"]["q"] + 1.0}  # noqa: E731
+    search_lazy_heavy(ctx, res, rnd, D, stats, mult)
+
+
+K_HEAVY = "LazyCall:HeavyCall:extra-override"
+
+
+def heavy_g(a, c):
+    """event-wise function usable on tf tensors (inside Dataset.map) and on numpy (oracle)"""
+    def g(d):
+        return {"y": d["a"] * a + c, "w": d["b"]["c"] - c, "s": {"q": d["a"] + 1.0}}
+    return g
+
+
+def heavy_build(D, cfg):
+    """construct the LazyCall of a heavy case from its description; returns (L, numpy oracle of the eager value)"""
+    np = _np()
+    g = heavy_g(cfg["a"], cfg["c"])
+    x, e1, e2, kind = cfg["x"], cfg["e1"], cfg["e2"], cfg["kind"]
+
+    def upd(base, extra):
+        out = dict(base)
+        out.update(extra)
+        return out
+
+    if kind == "heavy":
         L = D.LazyCall(D.HeavyCall(g), x)
-        L["weight"] = extra["weight"]
-        L.prefetch = 0
+        for k, v in e2.items():
+            L[k] = v
+        want = upd(g(x), e2)
+    elif kind == "replace":       # extras attached through data_replace (copy of the LazyCall), cache of the original populated first
+        L = D.LazyCall(D.HeavyCall(g), x)
+        L.as_dataset(cfg["b"])
+        for k, v in e2.items():
+            L = D.data_replace(L, k, v)
+        want = upd(g(x), e2)
+    elif kind == "plain_around_heavy":
+        h = lambda d: {"z": d["y"] + 1.0, "w": d["w"], "s": d["s"]}  # noqa: E731
+        L1 = D.LazyCall(D.HeavyCall(g), x)
+        for k, v in e1.items():
+            L1[k] = v
+        L = D.LazyCall(h, L1)
+        for k, v in e2.items():
+            L[k] = v
+        want = upd(h(upd(g(x), e1)), e2)
+    else:                         # heavy_around_plain: x of the HeavyCall is itself a (plain) LazyCall with extras
+        f0 = lambda d: {"a": d["a"] * 2.0, "b": {"c": d["b"]["c"] + 3.0}}  # noqa: E731
+        L1 = D.LazyCall(f0, x)
+        for k, v in e1.items():
+            L1[k] = v
+        L = D.LazyCall(D.HeavyCall(g), L1)
+        for k, v in e2.items():
+            L[k] = v
+        want = upd(g(upd(f0(x), e1)), e2)
+    L.prefetch = cfg["prefetch"]
+    return L, want
+
+
+def heavy_run(D, cfg):
+    """all consumers of one heavy case -> list of (consumer, result-or-exception)"""
+    out = []
+    b = cfg["b"]
+    L, want = heavy_build(D, cfg)
+    cached = None
+
+    def run(name, fn):
         try:
-            L.as_dataset(b)
-            it = D.data_to_numpy(D.data_merge(*[p for p in L]))
-            ev = D.data_to_numpy(L.eval())
+            out.append((name, D.data_to_numpy(fn())))
         except Exception as e:  # noqa: BLE001
-            res.fail("LazyCall:HeavyCall:raises", "HeavyCall LazyCall raises %s: %s" % (type(e).__name__, str(e)[:120]), {"op": "lazy_heavy", "n": n, "b": b})
-            continue
-        stats["lazy"] += 1
-        if not tree_equal(it, ev):
-            res.fail("LazyCall:HeavyCall", "HeavyCall LazyCall batches differ from eval()", {"op": "lazy_heavy", "n": n, "b": b})
+            out.append((name, "raise:%s: %s" % (type(e).__name__, str(e)[:120])))
+
+    def plain_iter():
+        L.as_dataset(b)
+        return D.data_merge(*[p for p in L])
+
+    run("iteration", plain_iter)
+    if isinstance(L.f, D.HeavyCall):
+        cached = b in L.cached_batch    # the first branch of __iter__ (cached tf.data pipeline) was taken
+    run("data_split+data_merge", lambda: D.data_merge(*[p for p in D.data_split(L, b)]))
+    run("batch_call", lambda: D.batch_call(lambda d: d, L, b))
+    L2, _ = heavy_build(D, cfg)
+    run("batch_call(fresh object)", lambda: D.batch_call(lambda d: d, L2, b))
+    L3, _ = heavy_build(D, cfg)
+    run("eval", lambda: L3.eval())
+    return out, want, cached
+
+
+def heavy_cfg(rnd, i):
+    np = _np()
+    n = rnd.choice([1, 2, 3, 7, 16])
+    k = rnd.choice([1, 2, 4])
+
+    def arr(shape):
+        return np.array([rnd.randint(-20, 20) for _ in range(int(np.prod(shape)))], dtype=float).reshape(shape)
+
+    x = {"a": arr((n, k)), "b": {"c": arr((n,))}}
+
+    def extras(keys_collide, shapes):
+        e = {}
+        r = rnd.random()
+        if r < 0.75:
+            for kk in rnd.sample(keys_collide, rnd.randint(1, len(keys_collide))):
+                e[kk] = {"q": arr((n, k))} if kk in ("s", "b") and shapes[kk] == "dict" else arr(shapes[kk])
+        if rnd.random() < 0.6:
+            for kk in rnd.sample(["weight", "charge_conjugation"], rnd.randint(1, 2)):
+                e[kk] = arr((n,))
+        return e
+
+    kind = ["heavy", "replace", "plain_around_heavy", "heavy_around_plain"][i % 4]
+    out_shapes = {"y": (n, k), "w": (n,), "s": "dict"}
+    if kind in ("heavy", "replace"):
+        e1, e2 = {}, extras(["y", "w", "s"], out_shapes)
+    elif kind == "plain_around_heavy":
+        e1, e2 = extras(["y", "w", "s"], out_shapes), extras(["z", "w"], {"z": (n, k), "w": (n,)})
+    else:
+        e1 = extras(["a"], {"a": (n, k)})      # overrides an input of the heavy function
+        e2 = extras(["y", "w", "s"], out_shapes)
+    bs = [1, max(1, n - 1) if n % max(1, n - 1) else 2, n + 5, 3, n]
+    return {"kind": kind, "a": float(rnd.randint(-3, 3)), "c": float(rnd.randint(-4, 4)), "x": x, "e1": e1, "e2": e2,
+            "b": bs[(i // 4) % len(bs)], "prefetch": rnd.choice([-1, 0, 2])}
+
+
+def heavy_payload(cfg):
+    return {"op": "lazy_heavy", "kind": cfg["kind"], "a": cfg["a"], "c": cfg["c"], "b": cfg["b"], "prefetch": cfg["prefetch"],
+            "x": pack(cfg["x"]), "e1": pack(cfg["e1"]), "e2": pack(cfg["e2"])}
+
+
+def heavy_check(D, res, cfg, stats):
+    outs, want, cached = heavy_run(D, cfg)
+    g_keys = {"y", "w", "s"} if cfg["kind"] != "plain_around_heavy" else {"z", "w", "s"}
+    collide = sorted(set(cfg["e2"]) & g_keys) + sorted(set(cfg["e1"]) & ({"y", "w", "s"} if cfg["kind"] == "plain_around_heavy" else {"a"}))
+    if cached is not None:
+        stats["heavy_cached_branch"] += int(bool(cached))
+        if not cached:
+            res.fail("LazyCall:HeavyCall:cache-not-populated", "as_dataset(%d) of a HeavyCall LazyCall left cached_batch empty (kind %s)" % (cfg["b"], cfg["kind"]), heavy_payload(cfg))
+    stats["heavy"] += 1
+    stats["heavy_colliding"] += int(bool(collide))
+    for name, got in outs:
+        if isinstance(got, str):
+            res.fail("LazyCall:HeavyCall:raises", "HeavyCall LazyCall (%s, batch %d, %s): %s" % (cfg["kind"], cfg["b"], name, got), heavy_payload(cfg))
+            return
+        if not tree_equal(got, want):
+            bad = sorted(k for k in want if k not in got or not tree_equal(got[k], want[k])) if isinstance(got, dict) else ["<structure>"]
+            over = [k for k in bad if k in collide]
+            key = K_HEAVY if over else "LazyCall:HeavyCall"
+            res.fail(key, "LazyCall with a HeavyCall function (%s, %d events, batch %d): %s differs from the eager value {**f(x), **extra} in keys %s%s" % (
+                cfg["kind"], len(cfg["x"]["b"]["c"]), cfg["b"], name, bad,
+                "; attached extra %s does not override the same-named output of the function" % over if over else ""), heavy_payload(cfg))
+            return
+
+
+def search_lazy_heavy(ctx, res, rnd, D, stats, mult):
+    """lazy vs eager for LazyCalls whose function is a HeavyCall (cached tf.data branch of __iter__), also nested
+    inside / around plain ones, with extras that collide with output keys and extras that do not"""
+    stats.update({"heavy": 0, "heavy_colliding": 0, "heavy_cached_branch": 0})
+    for i in range(24 * min(mult, 6)):
+        heavy_check(D, res, heavy_cfg(rnd, i), stats)
 
 
 # ----------------------------------------------------------------------------- replay
@@ -1035,6 +1197,21 @@ def replay(ctx, payload):
         ok = tree_equal(it, ev)
         print("lazy == eager:", ok)
         return 0 if ok else 1
+    if op == "lazy_heavy":
+        cfg = dict(r)
+        for k in ("x", "e1", "e2"):
+            cfg[k] = unpack(r[k])
+        outs, want, cached = heavy_run(D, cfg)
+        rc = 0
+        print("cached tf.data branch taken:", cached)
+        for name, got in outs:
+            ok = (not isinstance(got, str)) and tree_equal(got, want)
+            print("%-28s == eager {**f(x), **extra}: %s" % (name, ok if not isinstance(got, str) else got))
+            if not ok:
+                rc = 1
+                if isinstance(got, dict):
+                    print("   differing keys:", sorted(k for k in want if k not in got or not tree_equal(got[k], want[k])))
+        return rc
     if op == "index":
         t = unpack(r["tree"])
         from tf_pwa.particle import BaseParticle
